@@ -89,3 +89,31 @@ check(
     ),
     assumptions=["reference codec in /verif/harness/ref is correct", "Tuple is generated at top level only"],
 )
+
+check(
+    "C05", "compressed frames round-trip; corrupted frames rejected", "fault_enumeration",
+    rule=("(a) enumeration: every payload length 0..300 (thorough 0..4096, plus sizes to 4 MiB) x 17 method/level settings "
+          "(None, LZ4, ZSTD, LZ4HC levels 0..12 and 99) x 4 content classes, library frame checked by the reference frame "
+          "parser and both library- and reference-built frames read back by the library; (b) rapid: streams of 1-8 frames "
+          "read with drawn read sizes, directly and through proto.Reader; (c) fault enumeration: for rapid-drawn streams of "
+          "1-3 frames EVERY byte offset x masks {01,80,ff,random} is altered and everything the reader hands out, also on 3 "
+          "further reads after the error, is judged; (d) truncated streams and reads past the end; (e) size fields beyond "
+          "128 MiB / below 9 with a recomputed valid checksum, allocation measured. Distinct = hash of the stream (and read "
+          "sizes); enumerated cases are distinct by construction. Non-trivial = a multi-frame stream with a read that "
+          "straddles a frame boundary, or any alteration / truncation / oversize case, or a non-empty payload."),
+    quick=[unit("codec", "^TestC05(EveryLength|Streams|EndOfStream|Oversize)", checks=2000, timeout=900),
+           unit("codec", "^TestC05Alterations", checks=120, timeout=900)],
+    thorough=[unit("codec", "^TestC05(EveryLength|Streams|EndOfStream|Oversize)", checks=20000, timeout=6000, shards=8),
+              unit("codec", "^TestC05Alterations", checks=2500, timeout=6000, shards=8)],
+    manifest=dict(
+        text="Fault enumeration: every single-byte alteration (every offset x 4 masks) of generated frame streams, every "
+             "payload length up to a bound for every method and level, with a reference frame codec built directly on "
+             "go-faster/city, pierrec/lz4 and klauspost/zstd as differential oracle; the reader's output is judged byte by "
+             "byte, including reads that follow a failure.",
+        design_ref="DESIGN.md 4 C05",
+        note="128-bit hash collisions ignored. Trusts the third-party compression and hash libraries. The client-level "
+             "surfacing of *ch.CorruptedDataErr is exercised by the client-package checks.",
+        technique="exhaustive single-byte fault enumeration + property-based round trips against a reference frame codec",
+    ),
+    assumptions=["city/lz4/zstd third-party implementations are correct"],
+)
